@@ -304,7 +304,8 @@ def mergeDir : Nat → Bool → Path → Path → Tree → Tree × Bool
 
 /-- webdav_copymove_dir() at the top level: `none` = failed without touching anything (207) -/
 def copymoveDir (move : Bool) (ow : Bool) (src dst : Path) (t : Tree) : Option (Tree × Bool) :=
-  match walk t [] dst with
+  if src == dst then (if ow then some (t, false) else none)   -- "/d/" onto "/d": rename()/link onto itself
+  else match walk t [] dst with
   | .enotdir => none
   | .enoent => if parentIsDir t dst then some (if move then moveTree src dst t else copyTree src dst t, false)
                else none
